@@ -205,6 +205,30 @@ example :
     t.epochSeconds = (1709210096 : Nat) ∧ t.microsecond < 1000000 ∧ t.nanosecond < 1000 := by
   refine ⟨by decide +kernel, by decide, by decide⟩
 
+/-! ### timefromptp -/
+
+/-- decode then encode: for every 64-bit word whose seconds (after removing a non-negative integer offset `L`)
+    lie in 1970 … 2099 and whose low half is a legal sub-second count (below 10^9), `timefromptp(p, L)` returns
+    a time and that time's `.ptp` is the word `p` again.  The float steps (`int(x/1000)`, the `total_seconds()`
+    of the difference to the epoch) are exact on this domain. -/
+theorem xt_ptp_timefromptp (T x L : Nat) (hT : T < 4102444800) (hL : L ≤ T) (hx : x < 1000000000) :
+    ∃ t, timefromptp (T * 4294967296 + x) (L : Int) = .ok t ∧ t.ptp = .ok (((T * 4294967296 + x : Nat)) : Int) := by
+  refine ⟨ptOfDate (dateOfSeconds (T - L)) (x / 1000) (x % 1000) (.int L), ?_, ?_⟩
+  · unfold timefromptp
+    rw [word_hi T x hx, word_lo T x hx]
+    exact timefromptpParts_eq T x L hT hL hx
+  · have hn : T - L < 4102444800 := by omega
+    have hv := xt_ptp_value (ptOfDate (dateOfSeconds (T - L)) (x / 1000) (x % 1000) (.int L)) (T - L) L
+      (ptOfDate_epoch (T - L) _ _ _ hn) rfl
+      (show x / 1000 < 1000000 by omega) (show x % 1000 < 1000 by omega)
+      (show (T - L) * 1000000 + x / 1000 < 9007199254740992 by omega)
+    rw [hv]
+    have e : (T - L + L) * 4294967296 + (x / 1000 * 1000 + x % 1000) = T * 4294967296 + x := by omega
+    show Except.ok (((T - L + L) * 4294967296 + (x / 1000 * 1000 + x % 1000) : Nat) : Int) = _
+    rw [e]
+
+example : (1709210096 : Nat) < 4102444800 ∧ (37 : Nat) ≤ 1709210096 ∧ (123456789 : Nat) < 1000000000 := by decide
+
 /-! ### decoders: what does not invert -/
 
 /- Full law (FALSE of the code): `timefromiena(t.iena, t.year) = t` (to the microsecond).
